@@ -503,6 +503,8 @@ def memcheck_phase(outroot, runs, res, limit_total, per_proc=8):
             if err:
                 res.incon.append("%s: %s" % (target, err))
             for key, exc, f in found:
+                # a report before the first file (lane set-up = honest handshakes) is reproduced by any seed of the target
+                f = f or next(iter(sorted(glob.glob(os.path.join(seed_dir(target), "*")))), None)
                 res.add_violation(key, "[memcheck, target %s] %s" % (target, exc), "vg/" + keep_artifact(target, key, f))
     res.add_stat("memcheck_files", total)
     return total
